@@ -151,16 +151,34 @@ Proof.
   destruct H as (_ & _ & <- & _). reflexivity.
 Qed.
 
-(* the closing check sees the stripped parameter and the schema's own JSON type only *)
+(* the loop over the dimensions reads only "type" / "oneOf" along the items chain *)
+Lemma itemsValid_srename : forall tc (x y : option schema),
+  match x, y with Some a, Some b => srename a b | None, None => True | _, _ => False end ->
+  itemsValid x tc = itemsValid y tc.
+Proof.
+  induction tc as [|c IH n|c IH|]; intros x y R; try reflexivity; cbn [itemsValid];
+    (destruct x as [a|], y as [b|]; try tauto; try reflexivity;
+     destruct a as [t o d p i], b as [t' o' d' p' i']; apply srename_unfold in R;
+     destruct R as (<- & <- & <- & _ & Ri);
+     change (inputTypeValidForTypeComponent (Schema t o d p' i') c)
+       with (inputTypeValidForTypeComponent (Schema t o d p i) c);
+     destruct (inputTypeValidForTypeComponent (Schema t o d p i) c); cbn [bind]; try reflexivity;
+     cbn [s_items]; apply IH; exact Ri).
+Qed.
+
+(* the closing check sees the stripped parameter, the schema's own JSON type and those of its
+   element descriptions only *)
 Lemma finish_strip s s' q q' :
-  s_type s = s_type s' -> s_oneof s = s_oneof s' -> unnamed q = unnamed q' ->
+  s_type s = s_type s' -> s_oneof s = s_oneof s' ->
+  (forall tc, itemsValid (s_items s) tc = itemsValid (s_items s') tc) -> unnamed q = unnamed q' ->
   rmap unnamed (finish s q) = rmap unnamed (finish s' q').
 Proof.
-  intros Et Eo Eq. unfold finish. rewrite <- (erase_strip q), <- (erase_strip q'), Eq.
+  intros Et Eo Ei Eq. unfold finish. rewrite <- (erase_strip q), <- (erase_strip q'), Eq.
   destruct (parseABIParameterComponents (erase (unnamed q'))) as [tc| |]; cbn [bind rmap]; try reflexivity.
   assert (EI : inputTypeValidForTypeComponent s tc = inputTypeValidForTypeComponent s' tc).
   { unfold inputTypeValidForTypeComponent, inputTypeString. rewrite Et, Eo. reflexivity. }
   rewrite EI. destruct (inputTypeValidForTypeComponent s' tc); cbn [bind rmap]; try reflexivity.
+  rewrite (Ei tc). destruct (itemsValid (s_items s') tc); cbn [bind rmap]; try reflexivity.
   f_equal. exact Eq.
 Qed.
 
@@ -201,7 +219,9 @@ Proof.
     cbn in HI. destruct (HI y Ri) as [_ Hd]. exact Hd. }
   destruct (components_of t props items) as [c| |], (components_of t props' items') as [c'| |];
     cbn [rmap] in C; try discriminate; cbn [bind rmap]; try (injection C as ->; reflexivity); try reflexivity.
-  injection C as C. apply finish_strip; try reflexivity. cbn [unnamed]. rewrite C. reflexivity.
+  injection C as C. apply finish_strip; try reflexivity.
+  - intros tc. cbn [s_items]. apply itemsValid_srename. exact Ri.
+  - cbn [unnamed]. rewrite C. reflexivity.
 Qed.
 
 Theorem rename_process s s' n n' :
